@@ -753,6 +753,19 @@ def find_fn(toks, name):
     return params, ret, body
 
 
+def match_bracket(toks, i):
+    """index of the `]` matching the `[` at i, or None"""
+    depth = 0
+    for j in range(i, len(toks)):
+        if toks[j] == ("op", "["):
+            depth += 1
+        elif toks[j] == ("op", "]"):
+            depth -= 1
+            if depth == 0:
+                return j
+    return None
+
+
 def find_stmt_tokens(toks, kind, name, start=0):
     """kind 'let': `let [mut] NAME ... ;`  kind 'assign': `NAME = ... ;` at statement start.  Returns (tokens, end)."""
     i = start
@@ -1704,6 +1717,30 @@ def translate_fragment(src, scope, fn_name, steps, free, result, coq_name, known
     while not (toks[j][0] == "op" and toks[j][1] == "{"):
         j += 1
     ftoks = toks[j:match_brace(toks, j)]
+    if steps == "sink:index2":
+        # the fragment is whatever computes the value stored by the (only) doubly indexed assignment `a[i][j] = V;` of the
+        # function: V's `let` (looking through a final `.into()`), and - pulled in below - every local it depends on; no local
+        # is named here, so renaming them does not matter
+        sinks = []
+        for i in range(1, len(ftoks) - 8):
+            if ftoks[i][0] == "id" and ftoks[i + 1] == ("op", "[") and ftoks[i - 1][0] == "op" and ftoks[i - 1][1] in (";", "{", "}"):
+                j = match_bracket(ftoks, i + 1)
+                if j is not None and j + 1 < len(ftoks) and ftoks[j + 1] == ("op", "["):
+                    k2 = match_bracket(ftoks, j + 1)
+                    if k2 is not None and ftoks[k2 + 1] == ("op", "=") and ftoks[k2 + 2][0] == "id" and ftoks[k2 + 3] == ("op", ";"):
+                        sinks.append(ftoks[k2 + 2][1])
+        sinks = [v for v in sinks if True]
+        if len(set(sinks)) != 1:
+            raise Untranslatable("the doubly indexed store of a local (found %d)" % len(set(sinks)))
+        v = sinks[0]
+        st, _ = find_stmt_tokens(ftoks, "let", v, 0)
+        # `let v = x.into();`
+        body = [t for t in st[2:-1]]
+        if body and body[0] == ("op", "="):
+            body = body[1:]
+        if len(body) == 5 and body[0][0] == "id" and body[1:] == [("op", "."), ("id", "into"), ("op", "("), ("op", ")")]:
+            v = body[0][1]
+        steps, result = [("let", v)], v
     # a step may use a local that a rewrite of the source introduced in front of it (`let dq = d.unwrap_or(0); let q = a + dq;`):
     # such a `let` is pulled into the fragment (searched from the start of the function) and the translation restarted
     steps = list(steps)
@@ -1818,8 +1855,8 @@ def gen_kernels(repo, status, write):
     ], write)
     run_group(repo, status, "GenKRle.v", "h263/src/decoder/cpu/rle.rs", [
         dict(kind="frag", fn="inverse_rle", coq="k_dequant", params="(quant level : Z)",
-             steps=[("let", "dequantized_level"), ("let", "parity"), ("let", "value")],
-             free={"quant": ("quant", "u8"), "tcoef.level": ("level", "i16")}, result="value"),
+             steps="sink:index2",
+             free={"quant": ("quant", "u8"), "tcoef.level": ("level", "i16")}, result=None),
     ], write)
     run_group(repo, status, "GenKState.v", "h263/src/decoder/state.rs", [
         dict(kind="frag", fn="decode_next_picture", coq="k_quant_update", params="(in_force_quantizer : Z) (d_quantizer : option Z)",
